@@ -103,7 +103,7 @@ static J gen_total(Chooser &ch)
   g::Opt o;
   o.min_features = 1; o.max_features = 4;
   o.operations = true; o.model_ranges = true; o.global_constants = ch.chance(30); o.force_surface = true;
-  o.water = true; o.depth_surfaces = true;
+  o.water = true; o.depth_surfaces = true; o.cross_section = 1;
   g::GW w = g::gen_world(ch, o);
   J c = J::obj();
   c["world"] = w.root.dump();
@@ -114,6 +114,21 @@ static J gen_total(Chooser &ch)
       std::string kind;
       J q = degenerate_query(ch, w, kind);
       q["kind"] = kind;
+      // the 2D interface: the same place expressed along the cross section, plus the section's own degenerate places (its two
+      // defining points, the origin side, far beyond its end)
+      if (w.root.has("cross section") && ch.chance(40))
+        {
+          const J &cs = w.root.at("cross section");
+          const double ax = cs[0][0].num(), ay = cs[0][1].num(), bx = cs[1][0].num(), by = cs[1][1].num();
+          const double un = std::sqrt((bx - ax) * (bx - ax) + (by - ay) * (by - ay));
+          double sx = ((q.at("nat")[0].num() - ax) * (bx - ax) + (q.at("nat")[1].num() - ay) * (by - ay)) / un;
+          const int k2 = static_cast<int>(ch.range(0, 5));
+          if (k2 == 1) sx = 0; else if (k2 == 2) sx = un; else if (k2 == 3) sx = -sx; else if (k2 == 4) sx = ch.pick<double>({1e9, -1e9, 1e-300});
+          const double depth = q.at("depth").num();
+          if (w.fr.sph) { const double rr = w.fr.R - depth; q["p2"] = jp(rr * std::cos(sx * DEG), rr * std::sin(sx * DEG)); }
+          else q["p2"] = jp(sx, w.fr.H - depth);
+          q["kind"] = kind + " (2D)";
+        }
       qs.push(q);
     }
   c["queries"] = qs;
@@ -134,9 +149,9 @@ static Result check_total(const J &c)
       for (const PropList *l : {&pl, &all})
         {
           r.inner++;
-          if (kind != "aimed-interior") { r.inner_nt++; r.nontrivial = true; }
+          if (kind.rfind("aimed-interior", 0) != 0 || q.has("p2")) { r.inner_nt++; r.nontrivial = true; }
           std::vector<double> out;
-          try { out = W->properties(p3(q.at("p")), q.at("depth").num(), *l); }
+          try { out = q.has("p2") ? W->properties(p2(q.at("p2")), q.at("depth").num(), *l) : W->properties(p3(q.at("p")), q.at("depth").num(), *l); }
           catch (const std::exception &e)
             {
               if (std::string(e.what()).empty()) return Result::fail("empty-exception-message", "query threw an exception without message");
